@@ -249,12 +249,27 @@ func (c09) Run(t *testing.T, tape *core.Tape, rcx *RunCtx) *core.Result {
 	var ringFrags [][]c09Frag
 	// library mode: every slot has 2 or 3 alternatives (many partial assemblies alive at once)
 	library := tape.Chance(12)
+	// a few libraries go to the upper end of the quantified range (6 junctions x 3
+	// alternatives = 729 plasmids); they cost seconds each, so they are rare
+	maxProd := 81
+	if library && rcx.Tier == "thorough" && tape.Chance(3) {
+		// (the collector's linear duplicate scan makes these cost millions of scheduler
+		// steps each, so the quick tier stays at 81)
+		maxProd = 243
+		if tape.Chance(10) {
+			maxProd = 729
+		}
+		res.Count("probe_library_beyond_81_plasmids", 1)
+	}
 	for i := 0; i < k; i++ {
 		a := 1 + tape.Weighted(70, 20, 10)
 		if library {
 			a = 2 + tape.Draw(2)
+			if maxProd > 81 {
+				a = 3
+			}
 		}
-		if prod*a > 81 {
+		if prod*a > maxProd {
 			a = 1
 		}
 		prod *= a
